@@ -383,7 +383,7 @@ func init() {
 			"a header naming a type whose body pointer is nil is a caller error outside the statement (it dereferences nil today); not exercised",
 			"the family decoders route on the type octet only; the first octet is judged through PlainNasDecode",
 		},
-		Oracles: map[string]func(*core.Ctx, *core.Case){"grid": c05Grid, "one": c05One, "short": c05Short, "encode": c05Encode, "reuse": c05Reuse, "cold-concurrent": coldConcurrent},
+		Oracles: map[string]func(*core.Ctx, *core.Case){"cold-entries": coldEntries, "grid": c05Grid, "one": c05One, "short": c05Short, "encode": c05Encode, "reuse": c05Reuse, "cold-concurrent": coldConcurrent},
 		Exhaustive: func(tier string) (bool, string) {
 			return true, "all 65 536 (first octet, type) pairs at both header offsets; bodies sampled"
 		},
@@ -498,6 +498,7 @@ func init() {
 		us = append(us, core.Unit{Name: "encode", Weight: 5, Run: func(c *core.Ctx) {
 			c.Do(&core.Case{Oracle: "encode", Target: "nas.Message"})
 		}})
+		us = append(us, coldEntryUnits(tier, "nas.Message", "codec")...)
 		return us
 	}
 	core.Register(p)
@@ -776,7 +777,7 @@ func c10DecodeConcurrent(c *core.Ctx, k *core.Case) {
 	}
 	def := sp.Msg(k.S[0])
 	r := prng.New(uint64(k.I[0]))
-	G, reps := int(k.I[1]), int(k.I[2])
+	G, reps := int(k.I[1]), raceScale(int(k.I[2]))
 	inputs := make([][]byte, G)
 	want := make([]interface{}, G)
 	for g := range inputs {
@@ -824,7 +825,7 @@ func init() {
 		Interleave:  []string{"decode-pure", "encode-pure"},
 		Rule:        "decode: accepted and rejected inputs (random plans in nine presence patterns, their mutations, repository samples) through the three entry points with the input placed in a slice with guarded spare capacity: input octets, slice header and spare capacity unchanged; no []byte reachable from the message lies inside the input's backing array (address ranges via reflection); flipping every input octet leaves the message deep-equal to its snapshot and vice versa; two runs agree. encode: well-formed messages into buffers pre-filled with 0..64 octets and 0..64 octets of spare capacity: message deep-equal to its snapshot, prefix unchanged, appended bytes equal an encode into an empty buffer, no aliasing between message and output. Non-trivial = accepted input with at least one buffer-backed element, or encode with a non-empty prefill; distinct by bytes.",
 		Assumptions: []string{"address-range comparison uses reflect.Value.Pointer / unsafe on live slices in one goroutine"},
-		Oracles:     map[string]func(*core.Ctx, *core.Case){"decode-pure": c10Decode, "encode-pure": c10Encode, "decode-concurrent": c10DecodeConcurrent, "decode-reuse": c10DecodeReuse, "cold-concurrent": coldConcurrent},
+		Oracles:     map[string]func(*core.Ctx, *core.Case){"cold-entries": coldEntries, "decode-pure": c10Decode, "encode-pure": c10Encode, "decode-concurrent": c10DecodeConcurrent, "decode-reuse": c10DecodeReuse, "cold-concurrent": coldConcurrent},
 	}
 	p.Floors = func(tier string, cov map[string]map[string]int64, cnt map[string]int64) []string {
 		var f []string
@@ -901,7 +902,7 @@ func init() {
 			}})
 		}
 		us = append(us, reuseUnits(sp, "decode-reuse", 30, 600)...)
-		us = append(us, coldUnits(tier, "nas.Message", "decode", "encode")...)
+		us = append(us, coldUnits(tier, "nas.Message", "decode", "encode", "shared-encode", "shared-getters")...)
 		for _, def := range sp.Messages {
 			def := def
 			us = append(us, core.Unit{Name: "behind-64k-" + def.Name, Weight: 20, Run: func(c *core.Ctx) {
@@ -952,6 +953,7 @@ func init() {
 				}
 			}
 		}})
+		us = append(us, coldEntryUnits(tier, "nas.Message", "codec")...)
 		return us
 	}
 	core.Register(p)
